@@ -10,6 +10,8 @@ from vlib import model as M
 from vlib import strategies as S
 from vlib.runner import Unit, violation, call
 from vlib.repo import T, transform
+import itertools
+COUNTER = itertools.count()
 
 RULE = ("Hypothesis: random tree (n<=10/14 tokens, discontinuous or not), then 0..5 random nodes are detached and "
         "hung under the root; root_attach result compared (all fields, parent of every node) with a set-based "
@@ -39,6 +41,10 @@ def rootish(draw, max_tokens):
         parent, child = cands[draw(st.integers(0, len(cands) - 1))]
         parent["c"] = [c for c in parent["c"] if c is not child]
         root["c"].insert(draw(st.integers(0, len(root["c"]))), child)
+    if draw(st.integers(0, 3)) == 0:
+        steps = st.one_of(st.just(["root_attach"]), st.tuples(st.just("insert"), st.integers(0, 20), st.sampled_from([",", "x", "."])).map(list),
+                          st.tuples(st.just("delete"), st.integers(0, 20)).map(list))
+        case["pre"] = draw(st.lists(steps, min_size=1, max_size=3))
     return case
 
 
@@ -93,14 +99,54 @@ def reference(root):
     return root, moved
 
 
+def apply_pre(tree, pre):
+    """history on the same tree object: earlier root_attach calls and token edits (all through the repository's API)"""
+    import contextlib
+    import io
+    import os
+    import tempfile
+    def snapshot(node):
+        try:
+            return M.snapshot(node)
+        except M.Malformed as bad:
+            raise violation("C12/pre/malformed:" + bad.reason, "while applying the history %r: %s" % (pre, bad))
+    for step in pre:
+        if step[0] == "root_attach":
+            tree = call("C12/pre/root_attach", transform.root_attach, tree)
+        elif step[0] == "insert":
+            n = len(M.toks(snapshot(tree)[0]))
+            idx = step[1] % (n + 1) + 1
+            path = os.path.join(tempfile.gettempdir(), "c12_terms_%d_%d.txt" % (os.getpid(), next(COUNTER)))
+            with open(path, "w") as stream:
+                stream.write("%d\t%d\t%s\tPX\n" % (tree.data["sid"], idx, step[2]))
+            try:
+                with contextlib.redirect_stdout(io.StringIO()):
+                    tree = call("C12/pre/insert_terminals", transform.insert_terminals, tree, terminalfile=path, quiet=True)
+            finally:
+                os.remove(path)
+        elif step[0] == "delete":
+            leaves = [n for n in snapshot(tree)[1].values() if not n.children]
+            if len(leaves) > 2:
+                leaf = sorted(leaves, key=lambda x: x.data["num"])[step[1] % len(leaves)]
+                call("C12/pre/delete_terminal", T.delete_terminal, tree, leaf)
+    return tree
+
+
 def check(case):
     tree = M.build(case, T)
+    root_model = case["root"]
+    if case.get("pre"):
+        tree = apply_pre(tree, case["pre"])
+        try:
+            root_model = M.strip_ids(M.snapshot(tree)[0])
+        except M.Malformed as bad:
+            raise violation("C12/pre/malformed:" + bad.reason, str(bad))
     result = call("C12/root_attach", transform.root_attach, tree)
     try:
         snap, _ = M.snapshot(result)
     except M.Malformed as bad:
         raise violation("C12/root_attach/malformed:" + bad.reason, str(bad))
-    expected, moved = reference(case["root"])
+    expected, moved = reference(root_model)
     fields = dict(tok_fields=("w", "p", "lem", "m", "e"), con_fields=("l", "e", "lem", "m"))
     if M.canon(snap, **fields) != M.canon(expected, **fields):
         got_p = M.parent_map(snap)
@@ -118,8 +164,8 @@ def gen(ctx):
     def body(case):
         moved = check(case)
         root = case["root"]
-        ctx.count(key=case["root"], nontrivial=moved > 0,
-                  classes=["moved=%d" % min(moved, 3), "rootchildren=%d" % min(len(root["c"]), 7),
+        ctx.count(key=(case["root"], case.get("pre")), nontrivial=moved > 0,
+                  classes=(["with-history"] if case.get("pre") else []) + ["moved=%d" % min(moved, 3), "rootchildren=%d" % min(len(root["c"]), 7),
                            "gapdeg=%d" % min(M.tree_gapdeg(root), 3)])
         if moved > 0:
             ctx.sample({"tree": case["root"], "reattached": moved})
